@@ -1,0 +1,12 @@
+//go:build verif
+
+// Contracts for the contract-based verification in /verif (comment-only file).
+
+package metrics
+
+//@ # assumed (prometheus): WithLabelValues returns a usable metric; building the set has no effect on the ring
+//@ func NewRingbuf
+//@   trusted
+//@   modifies nothing
+//@   ensures result.WriteCalls != nil && result.ReadCalls != nil && result.WritesBlocked != nil && result.ReadsBlocked != nil
+//@   ensures result.WriteEntries != nil && result.ReadEntries != nil && result.MaxEntries != nil && result.UsedEntries != nil
